@@ -779,6 +779,21 @@ example : ctype exReq2 exEs [] (litEnv2 exReq2 exEtys exCtxT) (.getAttr (.var .p
   decide +kernel
 example : ctype exReq2 exEs [] (litEnv2 exReq2 exEtys exCtxT) exCtxE = .ok (.option .bool) := by decide +kernel
 
+-- `like` / `is` (in `SFrag2` since the third round): folded by `string_like` / `compile_is`, `none` on an erroring operand,
+-- `TypeError` on an operand of another type
+example : SFrag2 (.like (.lit (.string "x y")) [.char 'x', .star]) := inFrag2_sound _ (by decide +kernel)
+example : compile (litEnv exReq exEtys) (.like (.lit (.string "x y")) [.char 'x', .star]) = .ok (.some (.prim (.bool true))) := by
+  decide +kernel
+example : compile (litEnv exReq exEtys) (.like (.lit (.string "x*")) [.char 'x', .char '*', .char 'z']) = .ok (.some (.prim (.bool false))) := by
+  decide +kernel
+example : compile (litEnv exReq exEtys) (.like (.lit (.int 1)) [.star]) = .error .typeError := by decide +kernel
+example : compile (litEnv2 exReq2 exEtys exCtxT) (.like (.getAttr (.var .context) "s") [.star]) = .ok (.none .bool) := by
+  decide +kernel
+example : compile (litEnv exReq exEtys) (.is (.var .principal) "User") = .ok (.some (.prim (.bool true))) := by decide +kernel
+example : compile (litEnv exReq exEtys) (.is (.var .principal) "Doc") = .ok (.some (.prim (.bool false))) := by decide +kernel
+example : compile (litEnv exReq exEtys) (.is (.lit (.string "a")) "User") = .error .typeError := by decide +kernel
+example : ctype exReq exEs [] (litEnv exReq exEtys) (.is (.lit (.string "a")) "User") = .error .typeError := by decide +kernel
+
 /-- permit when exIf;  forbid when exOvf (errors) -/
 def pIf : Policy := { id := "q0", effect := .permit, condition := exIf, env := [] }
 def pOvf : Policy := { id := "q1", effect := .forbid, condition := exOvf, env := [] }
